@@ -210,6 +210,23 @@ def assignment_world(idx):
                 continue
             reads.append({"name": "%s_%s_%d" % (nm_, tid, k), "chr": chrom, "blocks": [list(b) for b in bl], "reverse": strand == "-"})
             k += 1
+    # reads that follow an isoform and carry a short spurious terminal exon (30 bp, 120 bp beyond the annotated end) on the 3' side
+    # (with and without a polyA tail / polyT head) or on the 5' side: the fake-terminal-exon handling exists once per side and strand
+    for tid, (chrom, strand, ex, g) in iso.items():
+        if len(ex) < 2 or g != "G1":
+            continue
+        right = (ex[-1][1] + 120, ex[-1][1] + 149)
+        left = (ex[0][0] - 149, ex[0][0] - 120)
+        if left[0] < 1:
+            continue
+        for side, bl in (("R", list(ex) + [right]), ("L", [left] + list(ex))):
+            three_prime = (side == "R") == (strand == "+")
+            for tail in ((0, 1) if three_prime else (0,)):
+                r = {"name": "fake%s%d_%s_%d" % (side, tail, tid, k), "chr": chrom, "blocks": [list(b) for b in bl], "reverse": strand == "-"}
+                if tail:
+                    r["clip_right" if strand == "+" else "clip_left"] = ("A" if strand == "+" else "T") * 30
+                reads.append(r)
+                k += 1
     reads.append({"name": "edge", "chr": "chr2", "blocks": [[1, 300], [701, 900]], "reverse": False})
     w = dict(w, reads=reads)
     syn.plant_for_transcripts(w)
